@@ -367,6 +367,28 @@ static void in_units()
 				if(!o5) fail("in_units", k2 + ",overload=Matrix", "rounded_variant_not_Round", "In_Units(Matrix,dim,true,digits) is not Round(q/d,digits) entry by entry");
 			}
 		}
+		// per-column units on three and four columns (equal at the two ends, different in between), and matrices of every small shape
+		{
+			VV t3{{3.0, -0.75, 1024.0}, {0.5, 8.0, -2.0}}, t4{{1.0, 2.0, -4.0, 0.5}, {8.0, -0.25, 3.0, 16.0}, {0.0, 1.0, 2.0, -3.0}};
+			V u3{dim, 4 * dim, dim}, u4{dim, 2 * dim, 8 * dim, dim};
+			VV r3 = In_Units(t3, u3), r4 = In_Units(t4, u4);
+			bool okc = r3.size() == t3.size() && r4.size() == t4.size();
+			for(size_t i = 0; okc && i < t3.size(); i++) for(size_t j = 0; j < 3; j++) if(!(r3[i].size() == 3 && mc::same_bits(r3[i][j], t3[i][j] / u3[j]))) okc = false;
+			for(size_t i = 0; okc && i < t4.size(); i++) for(size_t j = 0; j < 4; j++) if(!(r4[i].size() == 4 && mc::same_bits(r4[i][j], t4[i][j] / u4[j]))) okc = false;
+			g_cases++;
+			if(!okc) fail("in_units", key + ",per_column_units_3_and_4_columns", "quotient_wrong", "In_Units(table,{units}) does not divide every column by its own unit");
+			for(unsigned rows = 1; rows <= 4; rows++)
+				for(unsigned cols = 1; cols <= 4; cols++)
+				{
+					VV m(rows, V(cols));
+					for(unsigned i = 0; i < rows; i++) for(unsigned j = 0; j < cols; j++) m[i][j] = std::ldexp(1.0 + 2 * i + j, (int)(i + 2 * j) - 3) * (((i + j) % 3) ? 1 : -1);
+					Matrix M(m), R = In_Units(M, dim), RR = In_Units(M, dim, true, 3);
+					bool okm = R.Rows() == rows && R.Columns() == cols && RR.Rows() == rows && RR.Columns() == cols;
+					for(unsigned i = 0; okm && i < rows; i++) for(unsigned j = 0; j < cols; j++) if(!mc::same_bits(R[i][j], m[i][j] / dim) || !mc::same_bits(RR[i][j], Round(m[i][j] / dim, 3))) okm = false;
+					g_cases++;
+					if(!okm) fail("in_units", key + ",matrix=" + std::to_string(rows) + "x" + std::to_string(cols), "quotient_wrong", "In_Units(Matrix) does not divide (and round) every entry");
+				}
+		}
 		// multiplication by a unit is undone (to rounding) and rounding to digits is Round(q/d, digits)
 		for(double x : {1.2345678, -9.87654321e-5, 4.0e17})
 			for(double u : {GeV, cm, sec, kg, Kelvin})
